@@ -223,6 +223,7 @@ type harness struct {
 	vclock     int64 // unix nanos (atomic)
 	ensureDue  int64 // 0 none, guarded by mu
 	ensures    int
+	starts     int
 	ckpts      []checkpoint
 	keepCkpts  bool
 
@@ -299,6 +300,7 @@ func (h *harness) handler(phase string) state.HandlerFunc {
 		inv := &invocation{idx: idx, phase: phase, n: n, gate: make(chan struct{}), tomb: tb, honours: sp.Honours}
 		h.cur[idx] = inv
 		h.logEv(event{Kind: phase + "-start", Task: idx, N: n})
+		h.starts++
 		var nap time.Duration
 		if !h.controlled {
 			nap = time.Duration(h.sleepRnd.Intn(3000)) * time.Microsecond
@@ -763,7 +765,11 @@ func (h *harness) runFree(rnd *rand.Rand) runOutcome {
 			}
 		}
 		nwaits := len(h.waitTasks())
-		trans := h.mon.taskTrans
+		// progress = status transitions plus handler invocations: a task
+		// retried with After=0 is re-run without any status transition
+		h.mu.Lock()
+		trans := h.mon.taskTrans + h.starts
+		h.mu.Unlock()
 		h.st.Unlock()
 		if len(tombs) > out.maxOpen {
 			out.maxOpen = len(tombs)
